@@ -517,5 +517,104 @@ def replay_backpressure(case):
     judge_backpressure(c, simnet.run(lambda loop: _backpressure(loop, *c)))
 
 
+# ---------------------------------------------------------------- a second ABOR while the first one is still being carried out
+async def _double(loop, kind, first_at, gap, close_delay, nblocks):
+    ctl = harness.Ctl()
+    ctl.delays = {"read": 0.2, "write": 0.2, "list.next": 0.2}
+    if close_delay:
+        ctl.delays["close"] = close_delay
+    server = aioftp.Server(path_io_factory=harness.instrument(aioftp.MemoryPathIO, ctl), block_size=BLOCK, wait_future_timeout=5)
+    await server.start(HOST, PORT)
+    tree = {"/": DIR, "/g": bytes(range(BLOCK * nblocks)), "/d": DIR}
+    for i in range(nblocks):
+        tree["/d/e%d" % i] = b"x"
+    harness.mem_populate(server, tree)
+    raw = harness.Raw(HOST, PORT, patience=30)
+    await raw.connect()
+    await raw.cmd("USER anonymous")
+    await raw.cmd("EPSV")
+    dr, dw = await raw.open_data()
+    await asyncio.sleep(0.1)
+    line = {"RETR": "RETR /g", "STOR": "STOR /n", "APPE": "APPE /g", "LIST": "LIST /d", "MLSD": "MLSD /d"}[kind]
+    code, _ = await raw.cmd(line)
+    replies = [code]
+    if code == "150":
+        async def feed():
+            if kind in ("STOR", "APPE"):
+                for i in range(nblocks):
+                    dw.write(bytes([65 + i]) * BLOCK)
+                    await asyncio.sleep(0.2)
+            else:
+                await harness.read_all(dr, 60)
+        feeder = asyncio.ensure_future(feed())
+        await asyncio.sleep(first_at)
+        if gap == 0:
+            raw.send(b"ABOR\r\nABOR\r\n")
+        else:
+            raw.send("ABOR")
+            await asyncio.sleep(gap)
+            raw.send("ABOR")
+        while True:
+            c, _ = await raw.reply()
+            if c in ("SILENCE", "EOF"):
+                replies.append(c)
+                break
+            replies.append(c)
+            if len(replies) >= 6:
+                break
+        feeder.cancel()
+    dw.close()
+    follow = (await raw.cmd("PWD"))[0] if replies[-1] != "EOF" else None
+    raw.close()
+    await asyncio.sleep(2 + (close_delay or 0))
+    handles = ctl.open_handles
+    await asyncio.wait_for(server.close(), 1000)
+    return dict(replies=replies, follow=follow, open_handles=handles)
+
+
+def double_cases(tier):
+    out = []
+    for kind in KINDS:
+        for first_at in (0.05, 0.3, 0.9) + ((1.7, 5.0) if tier == "thorough" else (5.0,)):
+            for gap in (0, 0.0005, 0.3, 0.7) + ((1.5,) if tier == "thorough" else ()):
+                for close_delay in (0, 1.0):
+                    out.append((kind, first_at, gap, close_delay, 6))
+    return out
+
+
+def judge_double(case, out):
+    kind, first_at, gap, close_delay, nblocks = case
+    detail = dict(kind=kind, first_abor_after=first_at, gap_to_second_abor=gap, backend_close_delay=close_delay, **out)
+    r = out["replies"]
+    done = done_code(kind)
+    # the transfer either completes (its own completion reply) or is interrupted (426 + 226); every ABOR that interrupts
+    # nothing is answered by a single 226: four replies after the command in either case, then silence
+    allowed = (["150", done, "226", "226", "SILENCE"], ["150", "426", "226", "226", "SILENCE"], ["150", "226", done, "226", "SILENCE"])
+    if r not in [list(a) for a in allowed]:
+        missing = r[-1] == "SILENCE" and len(r) < 5
+        raise Violation(f"C14/double/{'an_ABOR_is_never_answered' if missing else 'unexpected_replies'}/{kind}", detail)
+    if out["follow"] != "257":
+        raise Violation(f"C14/double/session_not_usable_afterwards/{kind}", detail)
+    if out["open_handles"]:
+        raise Violation(f"C14/double/backend_handle_left_open/{kind}", detail)
+
+
+def part_double(ctx):
+    for case in double_cases(ctx.tier)[ctx.shard::ctx.nshards]:
+        out = simnet.run(lambda loop: _double(loop, *case))
+        ctx.count(case, "426" in out["replies"], sample=dict(kind=case[0], first_abor_after=case[1], gap=case[2], close_delay=case[3],
+                                                              replies=out["replies"]),
+                  classes=["double_" + case[0], "double_interrupted" if "426" in out["replies"] else "double_completed"])
+        try:
+            judge_double(case, out)
+        except Violation as v:
+            ctx.fail(v.sig, dict(kind="double", case=list(case)), v.detail)
+
+
+def replay_double(case):
+    c = tuple(case["case"])
+    judge_double(c, simnet.run(lambda loop: _double(loop, *c)))
+
+
 def plan(tier):
-    return [("grid", 16), ("sweep", 8), ("tapes", 8), ("backpressure", 6)]
+    return [("grid", 16), ("sweep", 8), ("tapes", 8), ("backpressure", 6), ("double", 8)]
